@@ -350,7 +350,27 @@ func registerIntrinsics(e *Engine) {
 		return 1
 	}
 	in["strings.TrimPrefix"] = func(fr *frame, a []value) value {
+		if _, isSym := a[0].(sstr); isSym {
+			// symbolic text, concrete prefix: one decision
+			p := mustStr(a[1], "TrimPrefix prefix")
+			ts := strTerms(a[0])
+			if len(ts) >= len(p) && fr.i.ps.decide(strEqTerm(ts[:len(p)], strTerms(p))) {
+				return normStr(fr.i.ps, ts[len(p):])
+			}
+			return a[0]
+		}
 		return strings.TrimPrefix(mustStr(a[0], "TrimPrefix"), mustStr(a[1], "TrimPrefix"))
+	}
+	in["strings.TrimSuffix"] = func(fr *frame, a []value) value {
+		if _, isSym := a[0].(sstr); isSym {
+			p := mustStr(a[1], "TrimSuffix suffix")
+			ts := strTerms(a[0])
+			if len(ts) >= len(p) && fr.i.ps.decide(strEqTerm(ts[len(ts)-len(p):], strTerms(p))) {
+				return normStr(fr.i.ps, ts[:len(ts)-len(p)])
+			}
+			return a[0]
+		}
+		return strings.TrimSuffix(mustStr(a[0], "TrimSuffix"), mustStr(a[1], "TrimSuffix"))
 	}
 	in["strings.HasSuffix"] = func(fr *frame, a []value) value {
 		p := mustStr(a[1], "HasSuffix suffix")
